@@ -9,13 +9,14 @@ PCNF = "pysmt.rewritings.PolarityCNFizer"
 ACK = "pysmt.rewritings.Ackermannizer"
 
 EXPLANATION = (
-    "Static analysis of pysmt/rewritings.py: the clause set each CNFizer / PolarityCNFizer handler "
-    "emits for and/or/not/implies/iff/ite over symbolic leaves and the fresh definition variable is "
-    "decided by complete truth table to be k<->op (full) resp. k->op / op->k by polarity (R1, "
-    "abstract interpreter); the top-level clean-up of convert() uses only satisfiability-preserving "
-    "actions (R2); Ackermannization replaces every application from the term table, ranges the "
-    "consistency implications over all unordered pairs of argument tuples per function, and uses the "
-    "rewritten argument terms (R3, taint: formula.args() must not reach the recorded tuples).")
+    "Abstract interpretation of pysmt/rewritings.py: CNFizer.convert and PolarityCNFizer.convert are "
+    "interpreted from source on operator skeletons over opaque Boolean leaves and theory atoms (constants "
+    "in every position included); the returned clause set is decided by complete truth table to be "
+    "equisatisfiable model-by-model: every model of the input extends to the definition variables and "
+    "every model of the clauses restricts to a model of the input (R1).  The Ackermannizer is interpreted "
+    "on skeletons with nested, repeated and Boolean-valued applications: no application survives, and "
+    "the result is equisatisfiable with the input under every 1-bit function table (R3d).  Exhaustive "
+    "dispatch of both CNF converters, quantifiers rejected explicitly (R0).")
 NOT_DECIDED = ["model extension / restriction for arbitrary formulas beyond the per-connective argument of R1"]
 
 
@@ -28,129 +29,6 @@ def run(ctx):
         dispatch_rule(ctx, rs, CNF, exempt={"ITE": "x"} if False else None)
         dispatch_rule(ctx, rs, PCNF)
         ctx.floor(rs, 120)
-
-    if ctx.want("R2"):
-        rs = ctx.rule("R2", "top-level clean-up of convert() uses only satisfiability-preserving actions")
-        cls, f = repo.method(CNF, "convert")
-        loops = [n for n in ast.walk(f) if isinstance(n, ast.For) and norm(n.target) == "lit"]
-        if len(loops) != 1:
-            rs.unrec("convert(): literal loop not recognised")
-        else:
-            chain = [n for n in loops[0].body if isinstance(n, ast.If)]
-            cases = []
-            cur = chain[0] if chain else None
-            while cur is not None:
-                act = "drop-clause" if any(isinstance(s, ast.Break) for s in cur.body) else \
-                    ("skip-literal" if any(isinstance(s, ast.Continue) for s in cur.body) else
-                     ("keep-literal" if any("simp.append(lit)" in norm(s) for s in cur.body) else "?"))
-                cases.append((norm(cur.test), act))
-                cur = cur.orelse[0] if len(cur.orelse) == 1 and isinstance(cur.orelse[0], ast.If) else None
-            want = {
-                "lit.is_true()": "drop-clause",
-                "lit == tl": "drop-clause",
-                "lit == self.mgr.Not(tl).simplify()": "skip-literal",
-                "not lit.is_false()": "keep-literal",
-            }
-            for test, act in cases:
-                if test in want and want[test] == act:
-                    rs.ok({"literal_case": test, "action": act})
-                elif test in want:
-                    ctx.finding(rs, "%s.convert|cleanup|%s" % (CNF, test),
-                                "top-level clean-up does `%s` for literals with `%s`; only `%s` preserves satisfiability"
-                                % (act, test, want[test]), method_loc(repo, cls, loops[0]))
-                else:
-                    rs.unrec("clean-up case `%s` -> %s" % (test, act))
-            # empty clause => FALSE_CNF ; empty cnf => unit clause of the top literal
-            txt = norm(f)
-            if "if len(clause) == 0:\n            return CNFizer.FALSE_CNF" in txt:
-                rs.ok({"empty clause": "FALSE_CNF"})
-            if "if len(_cnf) == 0:\n        return frozenset([frozenset([tl])])" in txt:
-                rs.ok({"no definitions": "unit clause of the top-level literal"})
-        ctx.floor(rs, 4)
-
-    if ctx.want("R3"):
-        rs = ctx.rule("R3", "Ackermannization: rewritten arguments, all pairs, every application replaced")
-        cls, wf = repo.method(ACK, "walk_function")
-        # what is recorded as the argument tuple of an application?
-        recorded = []
-        for hn in ("walk_function", "_add_args_to_fun"):
-            q, f = repo.find_method(ACK, hn)
-            for n in ast.walk(f):
-                if isinstance(n, ast.Call) and attr_tail(n) == "add" and "_funs_to_args" in norm(n.func):
-                    a = n.args[0]
-                    src = a
-                    if isinstance(a, ast.Name):
-                        for s in ast.walk(f):
-                            if isinstance(s, ast.Assign) and norm(s.targets[0]) == a.id:
-                                src = s.value
-                    recorded.append((hn, src, n))
-        if not recorded:
-            rs.unrec("no recording of argument tuples found")
-        # shape B: raw tuples are recorded but every element is rewritten (self.walk) at the point of use
-        cls_g, gi = repo.method(ACK, "_generate_implication")
-        rewritten_at_use = None
-        zl = [n for n in ast.walk(gi) if isinstance(n, ast.For) and isinstance(n.iter, ast.Call) and attr_tail(n.iter) == "zip"]
-        if zl:
-            lp = zl[0]
-            tv = [e.id for e in lp.target.elts] if isinstance(lp.target, ast.Tuple) else []
-            full = set()
-            for st in lp.body:      # only unconditional statements of the loop body count
-                if isinstance(st, ast.Assign) and isinstance(st.targets[0], ast.Name) and st.targets[0].id in tv and \
-                        isinstance(st.value, ast.Call) and attr_tail(st.value) == "walk" and norm(st.value.func.value) == "self" \
-                        and [norm(a) for a in st.value.args] == [st.targets[0].id]:
-                    full.add(st.targets[0].id)
-                if any(attr_tail(c) in ("EqualsOrIff", "Equals", "Iff") for c in calls_in(st)):
-                    break
-            rewritten_at_use = bool(tv) and full == set(tv)
-        for hn, src, call in recorded:
-            t = norm(src)
-            if t in ("formula.args()", "formula._content.args"):
-                if rewritten_at_use:
-                    rs.ok({"recorded": t, "rewritten_at_use": "self.walk(term) on every element before the equality is built"})
-                else:
-                    ctx.finding(rs, "%s.%s|raw-args-recorded" % (ACK, hn),
-                                "the argument tuple recorded for an application is %s (the original children) and the "
-                                "consistency implications do not rewrite every element: applications nested inside "
-                                "argument terms (f(g(x)+1)) are not replaced and survive in the result" % t,
-                                method_loc(repo, ACK, call))
-            elif t in ("tuple(args)", "args"):
-                rs.ok({"recorded": t})
-            else:
-                rs.unrec("recorded argument tuple: %s" % t)
-        # all unordered pairs
-        cls, f = repo.method(ACK, "_generate_implications")
-        comb = [c for c in calls_in(f) if attr_tail(c) == "combinations"]
-        if comb and len(comb[0].args) == 2 and norm(comb[0].args[1]) == "2" and "possible_args" in norm(comb[0].args[0]):
-            rs.ok({"pairs": "combinations(argument tuples of f, 2)"})
-        elif comb:
-            ctx.finding(rs, "%s._generate_implications|pairs" % ACK, "consistency pairs range over %s" % norm(comb[0]),
-                        method_loc(repo, cls, comb[0]))
-        else:
-            rs.unrec("pair enumeration")
-        cls, f = repo.method(ACK, "_get_equality_implications")
-        if "for f in self._funs_to_args:" in norm(f) and "self._generate_implications(f)" in norm(f):
-            rs.ok({"functions": "every function symbol seen"})
-        else:
-            rs.unrec("_get_equality_implications shape")
-        cls, f = repo.method(ACK, "_generate_implication")
-        txt = norm(f)
-        if "zip(option1, option2)" in txt and "implication = self.mgr.Implies(left, right)" in txt and \
-                "left = self.mgr.And(left_conjuncts)" in txt and "right = self.mgr.EqualsOrIff(app1_const, app2_const)" in txt:
-            rs.ok({"implication": "And(arg_i = arg'_i) -> (c_app = c_app')"})
-        else:
-            rs.unrec("_generate_implication shape")
-        # every application replaced: walk_function returns the table entry
-        rets = [n for n in ast.walk(wf) if isinstance(n, ast.Return)]
-        if rets and all(norm(r.value) == "ack_symbol" for r in rets) and "self._terms_dict[formula]" in norm(wf):
-            rs.ok({"walk_function": "returns the constant recorded for the application"})
-        else:
-            rs.unrec("walk_function return")
-        cls, f = repo.method(ACK, "do_ackermannization")
-        if "self.mgr.And(function_consistency, substitued_formula)" in norm(f):
-            rs.ok({"result": "consistency constraints AND rewritten formula"})
-        else:
-            rs.unrec("do_ackermannization shape")
-        ctx.floor(rs, 4)
 
     from . import c11_deep
     c11_deep.run(ctx)
